@@ -129,7 +129,7 @@ def printed_json(out):
 TRACE_CFG = 'INIT TInit\nNEXT TNext\nINVARIANT KitDone\nPOSTCONDITION KitPost\nCHECK_DEADLOCK FALSE\n'
 
 
-def _validate_shard(trace_module, recs, workdir, k, timeout, cfg, env=None):
+def _validate_shard(trace_module, recs, workdir, k, timeout, cfg, env=None, depth=0):
     tf = os.path.join(workdir, f'shard{k}.ndjson')
     of = os.path.join(workdir, f'verdict{k}.ndjson')
     with open(tf, 'w') as f:
@@ -141,6 +141,19 @@ def _validate_shard(trace_module, recs, workdir, k, timeout, cfg, env=None):
             env=dict(env or {}, TRACE_FILE=tf, OUT_FILE=of), workers=1, timeout=timeout, heap='3g')
     if not tlc_ok(r) or not os.path.exists(of):
         o = r['out']
+        # TLC cannot evaluate the clauses of ONE record (e.g. it refuses to compare values of different shapes, which is
+        # what a broken parser may return): that record is set aside with a MACHINERY_ clause and the rest of the shard is
+        # still validated.  main.py decides: alone it is a machinery failure, next to genuine failures it is set aside.
+        m = None
+        for m in re.finditer(r'/\\ pos = (\d+)', o):
+            pass
+        if m and ('Attempted to' in o or 'was not in the domain' in o or 'CASE with no conditions' in o) and depth < 6 and len(recs) > 1:
+            n = int(m.group(1))
+            if 1 <= n <= len(recs):
+                log(f'  [{trace_module} shard {k}] record {recs[n - 1].get("i")} cannot be evaluated by TLC; set aside')
+                b1, s1, t1 = _validate_shard(trace_module, recs[:n - 1], workdir, f'{k}a', timeout, cfg, env, depth + 1) if n > 1 else ([], 0, 0)
+                b2, s2, t2 = _validate_shard(trace_module, recs[n:], workdir, f'{k}b', timeout, cfg, env, depth + 1) if n < len(recs) else ([], 0, 0)
+                return b1 + [(recs[n - 1]['i'], ['MACHINERY_clauses_not_evaluable'])] + b2, s1 + s2, t1 + t2
         k0 = o.find('Error:')
         raise MachineryError(f'trace validation failed (shard {k} of {trace_module}):\n{o[k0:k0 + 1500] if k0 >= 0 else o[-1500:]}\n...\n{o[-1200:]}')
     with open(of) as f:
